@@ -593,6 +593,72 @@ func TestSlowArrival(t *testing.T) {
 			}
 		}
 	}
+	// a waiter's backlog timeout fires while the holder's completion is parked between "token back at the delegate" and
+	// unblock (gate rel.exit): the token is idle, nobody is being handed anything. The waiter gives up (refused, gone from
+	// the backlog); whatever it does instead, once things are quiet the backlog holds exactly the callers asleep (C12).
+	for rep := 0; rep < envInt("VERIF_N", 2); rep++ {
+		for _, ord := range []string{"fifo", "lifo"} {
+			names := []string{"h", "w1", "a2"}
+			c := newController()
+			s := newScenario(t, c, names)
+			s.settle = func() { s.settleRealTime(5*time.Millisecond, 300*time.Millisecond) }
+			c.emit = s.ev
+			limiter.VerifPoint = nil
+			dl, busy, err := newDelegate(1, rep%2 == 1)
+			if err != nil {
+				t.Fatal(err)
+			}
+			gl := &GatedLimiter{c: c, inner: dl}
+			reg := newRecordingRegistry()
+			o := limiter.OrderingFIFO
+			if ord == "lifo" {
+				o = limiter.OrderingLIFO
+			}
+			s.lim = limiter.NewQueueBlockingLimiterFromConfig(gl, limiter.QueueLimiterConfig{Ordering: o, MaxBacklogSize: 1, MaxBacklogTimeout: 30 * time.Millisecond, MetricRegistry: reg})
+			s.extra = func() J {
+				q, _ := reg.GaugeByID(core.MetricQueueSize)
+				return J{"busy": busy(), "gauge": int(dl.VerifInFlight()), "q": q}
+			}
+			cfg := wrapCfg{Kind: "queue", Ctor: "timeout-in-release", Limit: 1, QMax: 1, QTimeout: 30, Ordering: ord, Expect: "any", Procs: names}
+			w.write(J{"ev": "Reset", "trace": trace, "cfg": cfg, "obs": s.observe()})
+			i := 0
+			do := func(st schedStep) bool {
+				if err := s.apply(st); err != nil {
+					t.Logf("trace %d: %v", trace, err)
+					return false
+				}
+				i++
+				w.write(J{"ev": "Step", "trace": trace, "i": i, "step": st, "evs": s.events(), "obs": s.observe()})
+				return true
+			}
+			do(schedStep{A: "start", P: "h", Call: "acquire"})
+			do(schedStep{A: "start", P: "w1", Call: "acquire"})
+			c.mu.Lock()
+			c.enabled["rel.exit"] = true
+			c.mu.Unlock()
+			do(schedStep{A: "start", P: "h", Call: "release", Outcome: "success"})
+			c.mu.Lock()
+			c.enabled = map[string]bool{}
+			c.mu.Unlock()
+			do(schedStep{A: "tick", N: 50}) // w1's timeout fires meanwhile
+			do(schedStep{A: "pass", P: "h", Gate: "rel.exit"})
+			do(schedStep{A: "start", P: "a2", Call: "acquire"}) // the place in the backlog (of one) is free, or the token is
+			do(schedStep{A: "tick", N: 45})
+			for _, n := range names {
+				if s.procs[n].state == "granted" {
+					do(schedStep{A: "start", P: n, Call: "release", Outcome: "success"})
+				}
+			}
+			do(schedStep{A: "tick", N: 45})
+			w.write(J{"ev": "End", "trace": trace, "i": i + 1, "obs": s.observe()})
+			c.disableAll()
+			c.passAll()
+			for _, n := range names {
+				s.procs[n].cancel()
+			}
+			trace++
+		}
+	}
 }
 
 // handoffProbe: two goroutines pass one token back and forth through the backlog of a queue limiter (limit 1, nobody else),
